@@ -16,3 +16,15 @@ package metainfogen
 //@   loop 0 invariant idx: 0 - 1 <= rangeindex && rangeindex < len(c.ranges)
 //@   loop 0 invariant passed: forall j int :: 0 <= j && j <= rangeindex ==> c.ranges[j].fileSize <= fileSize
 //@   loop 0 invariant current: (rangeindex >= 0 ==> pieceLength == c.ranges[rangeindex].pieceLength) && (rangeindex < 0 ==> pieceLength == c.ranges[0].pieceLength)
+
+// The table is built sorted by size threshold (what get requires): the less closure compares the
+// thresholds, and sort.Slice leaves no later element less than an earlier one.
+//@ func newPieceLengthConfig$1
+//@   requires 0 <= i && i < len(ranges) && 0 <= j && j < len(ranges)
+//@   ensures order: result <==> ranges[i].fileSize < ranges[j].fileSize
+
+//@ func newPieceLengthConfig
+//@   modifies allmem rangeConfig
+//@   ensures sorted_by_threshold: result1 == nil ==> result0 != nil && len(result0.ranges) >= 1 && plsorted(result0)
+//@   ensures empty_rejected: len(pieceLengthByFileSize) == 0 ==> result1 != nil
+//@   loop 0 invariant one_per_entry: len(ranges) == nseen0 && 0 <= len(ranges)
